@@ -46,8 +46,8 @@ def main():
     have = set()
     import re, glob
     for f in glob.glob(os.path.join(V, "harness", "*", "*.rs")):
-        for m in re.finditer(r"// @harness[^\n]*props=([\w,]+)", open(f).read()):
-            have |= set(m.group(1).split(","))
+        for m in re.finditer(r"// @harness[^\n]*props=([\w,:]+)", open(f).read()):
+            have |= {x.split(":")[0] for x in m.group(1).split(",")}
     checks = []
     na = list(NA)
     for pid, (text, ref) in sorted(CLAIMS.items()):
